@@ -14,6 +14,11 @@ CATALOGUE = [
     [9999, 10000, 15], [10000, 9999, 15], [9999, 9999, 15],
     [999999, 1000000, 21], [1000000, 999999, 21], [1000, 999999, 21], [1, 1000, 21],
     [255, 255, 8], [256, 255, 9], [383, 128, 9],
+    # one decimal digit apart in every position of x resp. y (path digit groups of the tc / mp layouts)
+    [1234567, 654321, 21], [1234568, 654321, 21], [1234577, 654321, 21], [1234667, 654321, 21], [1235567, 654321, 21],
+    [1244567, 654321, 21], [1334567, 654321, 21], [234567, 654321, 21],
+    [1234567, 654322, 21], [1234567, 654331, 21], [1234567, 654421, 21], [1234567, 655321, 21], [1234567, 664321, 21],
+    [1234567, 754321, 21], [1234567, 1654321, 21], [654321, 1234567, 21],
 ]
 DIMSETS = [None, {'time': '2020'}, {'time': '2021'}, {'time': 'default'},
            {'time': '2020', 'elevation': '5'}, {'time': '2020', 'dim_level': '700'}]
